@@ -274,6 +274,39 @@ func dyadicGrid(rng *rand.Rand, a, b float64) []float64 {
 
 func genC08(w *bufio.Writer, tier string, rng *rand.Rand) {
 	n := pick(tier, 5000, 150000)
+	// aimed at the numeric constants of the code: parameters, arguments, differences x-a in units of sqrt(a),
+	// and (n,k) of the binomial coefficient
+	for _, c := range dictFloats(rng, pick(tier, 60, 1500)) {
+		v := math.Abs(c)
+		if v >= 0.05 && v <= 300 {
+			o := logUniform(rng, 0.05, 300)
+			fmt.Fprintf(w, "mx betagrid %s %s %s\n", fmtF(v), fmtF(o), fmtFs(dyadicGrid(rng, v, o)))
+			fmt.Fprintf(w, "mx betagrid %s %s %s\n", fmtF(o), fmtF(v), fmtFs(dyadicGrid(rng, o, v)))
+			fmt.Fprintf(w, "mx beta %s %s\n", fmtF(v), fmtF(o))
+			xs := []float64{0, v, v + 1, v * 0.5, v * 2, v + math.Sqrt(v), v + 7*math.Sqrt(v), v + 9*math.Sqrt(v), 1e-300, 1000}
+			sortFloats(xs)
+			fmt.Fprintf(w, "mx gammagrid %s %s\n", fmtF(v), fmtFs(xs))
+		}
+		if v > 0 && v < 1e18 { // as the argument x, and as the distance x-a in standard deviations sqrt(a)
+			a := logUniform(rng, 0.05, 300)
+			if rng.Intn(2) == 0 {
+				a = float64(1 + rng.Intn(300))
+			}
+			xs := []float64{v, math.Nextafter(v, 0), math.Nextafter(v, math.Inf(1))}
+			if v < 60 {
+				xs = append(xs, a+v*math.Sqrt(a), a+v*math.Sqrt(a)*1.0001, math.Max(0, a-v*math.Sqrt(a)))
+			}
+			sortFloats(xs)
+			fmt.Fprintf(w, "mx gammagrid %s %s\n", fmtF(a), fmtFs(xs))
+		}
+	}
+	for _, nn := range dictSizes(rng, 0, 1000, pick(tier, 10, 100)) {
+		for _, kk := range []int{0, 1, 2, nn / 2, nn - 1, nn, rng.Intn(nn + 1)} {
+			if kk >= 0 && kk <= nn {
+				fmt.Fprintf(w, "mx choose %d %d\n", nn, kk)
+			}
+		}
+	}
 	for k := 0; k < n; k++ {
 		switch rng.Intn(10) {
 		case 0, 1, 2: // real parameters: laws on a dyadic grid
